@@ -6,14 +6,15 @@
    closed kind (paragraph, setext/ATX heading, thematic break, block quote, table) then
    the blocks of A + blank line + B are the blocks of A followed by the blocks of B
    with every line number (nested ones included) shifted by the lines that precede B.
-   The property asks for a closed kind only of A's LAST block: pairs in which A holds
-   code blocks, lists or HTML blocks before its closed last block are covered by the
-   kernel sweep (C05_bounded_pairs, bound stated there) and by the oracle on the
-   implementation.  The theorem is about the block phase; with no link definitions
+   C05_stable_blocks_independent extends this: the blocks before A's closed last block may
+   also be indented code, fenced code and HTML blocks (a leaf block after which A goes on
+   has stopped at a line of A).  What remains outside the unbounded theorems is a LIST
+   before the closed last block: those pairs are covered by the kernel sweep
+   (C05_bounded_pairs, bound stated there) and by the oracle on the implementation.  The theorem is about the block phase; with no link definitions
    the inline phase is applied to each block's own lines. *)
 From Coq Require Import ZArith List Bool.
 From Mistletoe Require Import Base.Sx Base.PyStr Base.PyText Gen.GenConfig Model.Tree Model.CoreTokens Model.Block Model.Build
-     Model.Parser Proofs.Laws Proofs.Independence Proofs.IndepP.
+     Model.Parser Proofs.Laws Proofs.Independence Proofs.Independence2 Proofs.IndepP.
 Import ListNotations.
 Local Open Scope Z_scope.
 
@@ -25,6 +26,15 @@ Theorem C05_closed_blocks_independent : forall types f A B,
   map (shift_pre (Z.of_nat (length A) + 1)) (entries (tokenize_block types (S f) B 1 (mkPs true))).
 Proof. exact closed_blocks_independent. Qed.
 Print Assumptions C05_closed_blocks_independent.
+
+Theorem C05_stable_blocks_independent : forall types f A B,
+  no_blankline_kind types = true ->
+  stable_run types (tokenize_block types f) (S (length A)) A 1 (mkPs true) = true ->
+  entries (tokenize_block types (S f) (A ++ NL :: B) 1 (mkPs true)) =
+  entries (tokenize_block types (S f) A 1 (mkPs true)) ++
+  map (shift_pre (Z.of_nat (length A) + 1)) (entries (tokenize_block types (S f) B 1 (mkPs true))).
+Proof. exact stable_blocks_independent. Qed.
+Print Assumptions C05_stable_blocks_independent.
 
 (* line numbers derive from the start line alone: tokenizing the same lines from another start line shifts every number *)
 Theorem C05_line_numbers_shift : forall types d f lines ln st,
